@@ -750,8 +750,10 @@ def check_action(ctx, sp, F, wss, fields, rng):
         options = []
         for a_ in hi:
             m = [c for c in new if c.ufl_function_space() == a_.ufl_function_space()]
-            options.append(m or [ufl.Coefficient(a_.ufl_function_space())])
-        cands = [dict(zip(hi, combo)) for combo in itertools.islice(itertools.product(*options), 24) if len(set(combo)) == len(combo)]
+            options.append(m + [ufl.Coefficient(a_.ufl_function_space())])
+        combos = [c for c in itertools.islice(itertools.product(*options), 64) if len(set(c)) == len(c)]
+        combos.sort(key=lambda c: sum(1 for x in c if x not in new))  # prefer assignments that use the new coefficients
+        cands = [dict(zip(hi, c)) for c in combos[:12]]
         unmatched = [c for c in new if not any(c.ufl_function_space() == a_.ufl_function_space() for a_ in hi)]
         if unmatched or not cands:
             ctx.count("action_auto_new_coefficient_not_identified")
